@@ -321,6 +321,9 @@ impl<'a> Runner<'a> {
         };
         self.ops.push(Op::new("@inject", &[k as i64]));
         self.ops.push(op.clone());
+        // an interrupted operation cannot be reproduced on the twin instance (it may have purged expired entries
+        // physically before the panic): the comparison with a new instance (C12) ends here
+        self.twin = None;
         cb_reset(Some(k), true);
         let real = &mut self.real;
         let res = catch_unwind(AssertUnwindSafe(|| real.apply(op)));
